@@ -107,6 +107,39 @@ func (vc *VC) modSetOf(spec *FuncSpec, pre *SpecEnv) modSet {
 type footprintT struct {
 	all    bool
 	arrays map[string]*Sort
+	types  []*Term // type tags of objects the body may allocate (superset)
+}
+
+// allocTypesFact: every reference in [lo, hi) carries one of the given type tags.
+func allocTypesFact(tags []*Term, lo, hi *Term) *Term {
+	x := BoundVar("ax", SInt)
+	var alts []*Term
+	for _, t := range tags {
+		alts = append(alts, Eq(rtypeOf(x), t))
+	}
+	return Forall([]*Term{x}, Implies(And(Le(lo, x), Lt(x, hi)), Or(alts...)), []*Term{rtypeOf(x)})
+}
+
+func effectTypeTags(eff *Effects) []*Term {
+	seen := map[string]bool{}
+	var out []*Term
+	add := func(t *Term) {
+		if !seen[t.Lit] {
+			seen[t.Lit] = true
+			out = append(out, t)
+		}
+	}
+	for _, a := range eff.arrays {
+		switch {
+		case a.structT != nil:
+			add(typeID(a.structT))
+		case a.mt != nil:
+			add(typeID(a.mt))
+		case a.boxT != nil:
+			add(typeID(a.boxT))
+		}
+	}
+	return out
 }
 
 func (vc *VC) footprint(fi *FuncInfo) *footprintT {
@@ -132,6 +165,7 @@ func (vc *VC) footprint(fi *FuncInfo) *footprintT {
 	for n, a := range eff.arrays {
 		fp.arrays[n] = a.sort
 	}
+	fp.types = append(effectTypeTags(eff), eff.extraTypes...)
 	vc.prog.footprints[fi] = fp
 	return fp
 }
@@ -237,6 +271,14 @@ func (vc *VC) callHavoc(s *State, spec *FuncSpec, fi *FuncInfo, pre *SpecEnv) {
 	if !noAlloc {
 		na := Fresh("alloc", SInt)
 		s.assume(Ge(na, s.alloc))
+		// objects allocated by the callee have one of the types whose fields the callee's body writes
+		if fi != nil && !spec.Trusted {
+			if real := vc.footprint(fi); !real.all {
+				if f := allocTypesFact(real.types, s.alloc, na); f != nil {
+					s.assume(f)
+				}
+			}
+		}
 		s.alloc = na
 	}
 	for _, n := range ns {
